@@ -206,7 +206,8 @@ def mk_steps_record(tag, rows, rs):
 class CompiledWorld:
     """nodes a (2 slots, generations 0 and 1) -> sup (supervisor, last generation); a has no inputs, sup reads a."""
 
-    def __init__(self, ctx, record, rs):
+    def __init__(self, ctx, record, rs, extra=None, pfx=""):
+        """extra: name of one more input-less node (one slot `<extra>_0` in generation 0), e.g. a node whose name extends another node's name"""
         ex = ctx.ex
         self.ctr = StepCounter()
         dd = lambda: Rec("DelayDistribution", {}, module=BASE, frozen=True)
@@ -221,7 +222,10 @@ class CompiledWorld:
             wins = {"a": mk_window(f"T.{name}.a", self.win)} if kind == "sup" else {}
             return Rec("SlotVertex", dict(seq=z3.Int(f"T.{name}.seq"), ts_start=z3.Real(f"T.{name}.ts_start"), ts_end=z3.Real(f"T.{name}.ts_end"), windows=wins,
                                           run=z3.Bool(f"T.{name}.run"), kind=kind, generation=gen), module=BASE, frozen=True)
-        self.slots = {"a_0": slot("a_0", "a", 0), "a_1": slot("a_1", "a", 1), "sup_0": slot("sup_0", "sup", 2)}
+        self.slots = {f"{pfx}a_0": slot("a_0", "a", 0), f"{pfx}a_1": slot("a_1", "a", 1), f"{pfx}sup_0": slot("sup_0", "sup", 2)}      # the supergraph library names slots s<kind>_<i>
+        if extra:
+            self.nodes[extra] = Rec("BaseNode", dict(name=extra, rate=z3.Real(f"{extra}.rate"), inputs={}, outputs={}, step=self.ctr.make(extra)), module=None)
+            self.slots[f"{pfx}{extra}_0"] = slot(f"{extra}_0", extra, 0)
         self.timings = Rec("Timings", dict(slots=self.slots), module=BASE, frozen=True)
         self.sizeA, self.sizeS = z3.Int("a.bufsize"), z3.Int("sup.bufsize")
         ctx.require(self.sizeA >= 1)
@@ -243,6 +247,11 @@ class CompiledWorld:
                                          ts={"a": z3.Real("a.ts"), "sup": z3.Real("sup.ts")}, params={"a": z3.Const("a.params", Leaf), "sup": z3.Const("sup.params", Leaf)},
                                          state={"a": z3.Const("a.state", Leaf), "sup": z3.Const("sup.state", Leaf)}, inputs={"a": prevA, "sup": prevS},
                                          timings_eps=None, buffer=self.buf, aux=aux), module=BASE, frozen=True)
+        if extra:
+            self.buf[extra] = [Arr.fresh(f"buffer.{extra}", Leaf, self.sizeA)]
+            for fld, mk in (("rng", lambda: z3.Const(f"{extra}.rng", Leaf)), ("seq", lambda: z3.Int(f"{extra}.seq")), ("ts", lambda: z3.Real(f"{extra}.ts")),
+                            ("params", lambda: z3.Const(f"{extra}.params", Leaf)), ("state", lambda: z3.Const(f"{extra}.state", Leaf)), ("inputs", lambda: {})):
+                self.gs.f[fld][extra] = mk()
 
 
 class RunGeneration(Unit):
@@ -340,6 +349,44 @@ def aw_rs(v):
     return dict(params=v, rng=v, inputs=False, state=v, output=v)
 
 
+class SkipSlots(Unit):
+    """`skip` removes exactly the slots of the named kinds (zero executions for those nodes) and no slot of any other node, whatever the nodes are called"""
+    name = "make_run_partition_excl_supervisor (skip list)"
+    target = PR + "::make_run_partition_excl_supervisor"
+    props = ("C06",)
+
+    def configs(self):
+        yield "skip=[a], other node a_x", dict(skip=["a"], extra="a_x")
+        yield "skip=[a_x], other node a", dict(skip=["a_x"], extra="a_x")
+        yield "skip=None", dict(skip=None, extra="a_x")
+        yield "skip=[]", dict(skip=[], extra="a_x")
+
+    def run(self, ctx):
+        ex, cfg = ctx.ex, ctx.cfg
+        W = CompiledWorld(ctx, False, aw_rs(False), extra=cfg["extra"], pfx="s")
+        run_S = ctx.call(args=[W.nodes, W.timings, None, "ssup_0"], kwargs=dict(skip=None if cfg["skip"] is None else list(cfg["skip"])))
+        ok = isinstance(run_S, Closure) and "_run_generation" in run_S.env_chain[0]
+        ctx.ensure("factory returns the partition runner", z3.BoolVal(ok))
+        if not ok:
+            return
+        run_gen = run_S.env_chain[0]["_run_generation"]
+        gen0 = {k: v for k, v in W.slots.items() if v.f["generation"] == 0}
+        for t in gen0.values():
+            ctx.require(0 <= t.f["seq"])
+        ret = ex.call(run_gen, [W.gs, gen0], {})
+        skipped = set(cfg["skip"] or [])
+        cl = []
+        for name, t in gen0.items():
+            kind = t.f["kind"]
+            n = len([c for c in W.ctr.calls if c[0] == kind])
+            if kind in skipped:
+                cl.append(z3.BoolVal(n == 0))
+            else:
+                cl.append(z3.If(t.f["run"], z3.BoolVal(n == 1), z3.BoolVal(n == 0)))
+        ctx.ensure("C06 a scheduled slot of a node that is NOT in `skip` runs its step exactly once (also when its name extends a skipped node's name); slots of skipped nodes run zero times",
+                   z3.And(*cl))
+
+
 class RecordInert(Unit):
     """C13 non-interference (2-safety): the same generation run with and without a record yields the same step states and buffers"""
     name = "record non-interference: _run_generation"
@@ -370,7 +417,7 @@ class RecordInert(Unit):
             ctx.ex.obligations[:] = [o for o in ctx.ex.obligations if o.kind == "ensures"]
 
 
-UNITS += [RunGeneration(), RecordInert()]
+UNITS += [RunGeneration(), RecordInert(), SkipSlots()]
 
 
 # =========================================================================================== _run_S (generation order, C07 / C09 / C13)
